@@ -272,6 +272,21 @@ def chain_items(ctx, n, salt):
         f2 = dict(files)
         f2["/main.sy"] = rg.EXT_PRINT + "use %s\nstart :: fn do\n    print(%s.x)\nend\n" % (mods[0], mods[0])
         items.append({"kind": "reexport-ns", "single": single, "files": f2})
+    items += reexport_orders(ctx, max(6, n // 4), salt)
+    return items
+
+
+def reexport_orders(ctx, n, salt):
+    """rg.reexport_projects: a re-export project in EVERY order in which tree() can be made to visit the modules;
+    accepted shapes are compared with the single-file program, the two rejected shapes must be rejected"""
+    items = []
+    for i in range(n):
+        r = vlib.rng(ctx.seed, "%s-reorder-%d" % (salt, i))
+        for shape, files, single_src in rg.reexport_projects(r, i):
+            if single_src is None:
+                items.append({"kind": "reexport-reject", "files": files, "shape": shape})
+            else:
+                items.append({"kind": "reexport", "single": rg.single(single_src, False), "files": files, "shape": shape})
     return items
 
 
@@ -286,6 +301,10 @@ def judge(it, res):
     if it["kind"] == "unimported":
         (a,) = res
         return None if a[0] == "ERR" else "a global of another module is visible without an import"
+    if it["kind"] == "reexport-reject":
+        (a,) = res
+        return None if a[0] == "ERR" else "a re-export project with a %s is accepted" % (
+            "missing name" if it["shape"] == "missing" else "collision of two definitions under one name")
     return None
 
 
@@ -344,13 +363,15 @@ def always(ctx):
         ctx.brk("oracle:" + (c or "unexplained"),
                 "%d of %d oracle evaluations violate C12 and are not covered by an open known finding; first: %s (class %s)"
                 % (len(un), len(items), v, c))
-    return {"oracle_evaluations": len(items), "oracle_distribution": dict(dist), "oracle_import_styles": dict(styles),
+    return {"reexport_case": c09.flags_case().get("imports"), "oracle_evaluations": len(items), "oracle_distribution": dict(dist), "oracle_import_styles": dict(styles),
             "oracle_traces_compared": bool(LUA["available"]), "oracle_lua_unavailable_reason": LUA["why"],
             "oracle_rule": "real compiler (--no-std, external print) + LuaCore run: a generated program in one file vs the "
                            "same globals partitioned over 2-4 files/folders with a random import style per module pair "
                            "(use, use-as, from, from-as, chain a.b.x; relative and rooted paths, exports.sy) -> same "
                            "accept/reject and same trace; an unqualified reference to a global that was not imported -> "
-                           "rejected; re-export chains through from-imports -> same as single file; every layout with the main file given as an "
+                           "rejected; re-export chains through from-imports -> same as single file, also in every order in which tree() "
+                           "can visit the modules (chain, aliases along the chain, diamond, cycle through main) while a name "
+                           "missing at the end of the chain and two definitions under one name are rejected in every order; every layout with the main file given as an "
                            "absolute path, a bare name (main.sy), ./main.sy or proj/main.sy (the file map keyed accordingly); a module "
                            "with mutable state reached once relatively and once through a `/`-rooted path (file or exports.sy, "
                            "from sub-folders) must be loaded once"}
